@@ -263,7 +263,7 @@ def u_roundtrip(W, sk):
         # a single dimension held in an index without a name: recognised through its items
         g.index = g.index.rename(None)
         steps.append("index name removed")
-    if layout == "long_columns" and style == "names" and "columns permuted" not in steps and "single-item dimensions left out" not in steps and "value column renamed" not in steps and rng.random() < 0.25:
+    if layout == "long_columns" and style == "names" and not sk.get("same_items") and "columns permuted" not in steps and "single-item dimensions left out" not in steps and "value column renamed" not in steps and rng.random() < 0.25:
         # a CSV file without a header line, read as if it had one: the first data row ends up as column names
         d_ = tempfile.mkdtemp(prefix="fvc_csv_")
         try:
